@@ -102,6 +102,9 @@ var c12Patches = []string{
 	"@@\nvar f identifier\n@@\n-func f() int {\n+func f() (int, error) {\n   ...\n }\n",
 	"# use new import\n@@\nvar x expression\n@@\n+import \"example.com/new/bar\"\n\n-legacy(x)\n+bar.New(x)\n",
 	"@@\n@@\n-oldName\n+newName\n\n@@\nvar x expression\n@@\n-bump(x)\n+bump(x + 1)\n",
+	// two changes that touch neighbouring code with comments around: the second one deletes the statement in front of
+	// what the first one rewrote (the changed regions of the second change are relative to the first one's result)
+	"@@\nvar x expression\n@@\n-chainFoo(x)\n+chainBar(x)\n\n@@\nvar x expression\n@@\n-chainDrop()\n chainBar(x)\n\n@@\nvar y expression\n@@\n chainBar(y)\n-chainAfter()\n",
 }
 
 func init() {
@@ -150,6 +153,16 @@ func runC12(ctx *core.Ctx, idx int) *core.Result {
 					plants = append(plants, gen.Plant{Kind: "decl", Text: fmt.Sprintf("func gen%d_%d() int {\n\treturn %d\n}", f, i, i)})
 				case 4:
 					plants = append(plants, gen.Plant{Kind: "expr", Text: "legacy(" + g.Atom() + ")"})
+				case 6:
+					a := g.Atom()
+					switch r.Intn(3) {
+					case 0:
+						plants = append(plants, gen.Plant{Kind: "stmts", Text: "setup()\nchainDrop()\n// about foo\nchainFoo(" + a + ")\nteardown()"})
+					case 1:
+						plants = append(plants, gen.Plant{Kind: "stmts", Text: "chainFoo(" + a + ")\n// about after\nchainAfter()\nother()"})
+					default:
+						plants = append(plants, gen.Plant{Kind: "stmts", Text: "// before drop\nchainDrop() // drop it\n// about foo\nchainFoo(" + a + ") // trailing foo\n// about after\nchainAfter() // trailing after\n// kept\nother()"})
+					}
 				}
 			}
 		}
@@ -204,6 +217,18 @@ func runC12(ctx *core.Ctx, idx int) *core.Result {
 		for _, f := range files {
 			os.MkdirAll(filepath.Join(dir, "tree", filepath.Dir(f.name)), 0o755)
 			os.WriteFile(filepath.Join(dir, "tree", f.name), []byte(f.src), 0o644)
+		}
+		// bystanders: files a tidy-minded tool might be tempted to clean up (leftovers of an interrupted in-place run,
+		// editor backups, lock files): a dry run leaves every one of them alone
+		for i, f := range files {
+			if (i+len(files))%3 != 0 {
+				continue
+			}
+			d, b := filepath.Join(dir, "tree", filepath.Dir(f.name)), filepath.Base(f.name)
+			os.WriteFile(filepath.Join(d, "."+b+".2750341986.tmp"), []byte("leftover"), 0o644)
+			os.WriteFile(filepath.Join(d, b+".orig"), []byte("backup"), 0o644)
+			os.WriteFile(filepath.Join(d, b+"~"), []byte("backup"), 0o644)
+			os.WriteFile(filepath.Join(d, ".#"+b+".lock"), []byte("lock"), 0o644)
 		}
 		return dir
 	}
